@@ -105,14 +105,14 @@ pub fn run_asmdump(line: &str) -> String {
     }
 }
 
-pub fn exec_program_report(program: &Program, limits: (u32, u32), stack: Vec<u64>, adv: Vec<u64>) -> String {
+pub fn exec_program_report(program: &Program, limits: (u32, u32), stack: Vec<u64>, adv: Vec<u64>, tracing: bool) -> String {
     let (max_cycles, expected) = limits;
     let mut stack = stack;
     stack.reverse();
     let stack_inputs = StackInputs::try_from_values(stack).unwrap();
     let advice_inputs = AdviceInputs::default().with_stack_values(adv).unwrap();
     let host = DefaultHost::new(MemAdviceProvider::from(advice_inputs));
-    let opts = ExecutionOptions::new(Some(max_cycles), expected, false).unwrap();
+    let opts = ExecutionOptions::new(Some(max_cycles), expected, tracing).unwrap();
     let mut process = Process::new(program.kernel().clone(), stack_inputs, host, opts);
     let r = process.execute(program);
     let clk = process.system.clk();
@@ -161,7 +161,7 @@ pub fn run_masm(line: &str) -> String {
             Ok(p) => p,
             Err(e) => return format!("ASMERR {}", asm_err_string(&e)),
         };
-        exec_program_report(&program, max_cycles, stack, adv)
+        exec_program_report(&program, max_cycles, stack, adv, parts[3].contains("trc"))
     }));
     match res {
         Ok(s) => s,
